@@ -423,14 +423,30 @@ func Check(env *core.Env, rep *core.Report) *core.Result {
 		nops := 2 + r.Intn(5)
 		// scenario 0: a long run of events that are not subscribed, then a subscribed one
 		fixed := [][2]string{{"write", "f1.txt"}, {"chmod", "f1.txt"}, {"chmod", "f2.txt"}, {"chmod", "f1.txt"}, {"chmod", "f2.txt"}, {"chmod", "f3.txt"}, {"write", "f1.txt"}}
+		// scenario 1: a selected file is renamed away and, after the rename has been handled, renamed
+		// back: the watcher keeps serving it (the KeepsServing probe below writes to it)
+		fixed1 := [][2]string{{"rename", "f1.txt"}, {"chmod", "f2.txt"}, {"chmod", "f3.txt"}, {"rename-back", "f1.txt"}, {"chmod", "f2.txt"}}
 		if i == 0 {
 			nops = len(fixed)
+		}
+		if i == 1 {
+			nops = len(fixed1)
 		}
 		for k := 0; k < nops; k++ {
 			f := []string{"f1.txt", "f2.txt", "f3.txt", "ex.txt", "other.dat", "d/in.txt"}[r.Intn(6)]
 			op := []string{"write", "write", "chmod", "remove", "rename"}[r.Intn(5)]
 			if i == 0 {
 				op, f = fixed[k][0], fixed[k][1]
+			}
+			if i == 1 {
+				op, f = fixed1[k][0], fixed1[k][1]
+			}
+			if op == "rename-back" {
+				_ = os.Rename(filepath.Join(root, f)+".moved", filepath.Join(root, f))
+				gone[f] = false
+				ops = append(ops, op+" "+f)
+				time.Sleep(1250 * time.Millisecond)
+				continue
 			}
 			if gone[f] {
 				continue
